@@ -375,7 +375,14 @@ def evaluate__pow(self: XPathFunction, context: ta.ContextType = None) -> ta.One
     y = self.get_argument(context, index=1, required=True, cls=NumericProxy)
     if x is None:
         return []
-    elif not x and y < 0:
+
+    # The arguments are promoted to xs:double (e.g. 0.0 ** 0.0 is not defined for decimals)
+    if isinstance(x, decimal.Decimal):
+        x = float(x)
+    if isinstance(y, decimal.Decimal):
+        y = float(y)
+
+    if not x and y < 0:
         return math.copysign(float('inf'), x) if (y % 2) == 1 else float('inf')
 
     try:
@@ -1228,6 +1235,8 @@ def evaluate__uri_collection(self: XPathFunction, context: ta.ContextType = None
             AnyURI(uri)
         except ValueError:
             raise self.error('FODC0004', 'invalid argument to fn:uri-collection') from None
+        except TypeError as err:
+            raise self.error('XPTY0004', err) from None
 
         if not context.resource_collections:
             resource_collection = []
